@@ -323,6 +323,65 @@ fn check_run_layout(files: &[File], doc_json: &str, acc: &mut Acc, class: &str, 
             }
         }
     }
+    // (3b) the tests of a filter are not checks of the rule: a message written on a clause inside `[ .. ]` is never listed
+    {
+        fn filter_msgs(c: &Cnf, inside: bool, out: &mut std::collections::BTreeSet<String>) {
+            for line in c {
+                for alt in line {
+                    match alt {
+                        Clause::Unary { msg, q, .. } | Clause::Binary { msg, q, .. } => {
+                            if inside {
+                                if let Some(m) = msg {
+                                    out.insert(m.clone());
+                                }
+                            }
+                            for p in q {
+                                if let Part::Filter(fc) = p {
+                                    filter_msgs(fc, true, out);
+                                }
+                            }
+                        }
+                        Clause::Block { q, body, .. } => {
+                            for p in q {
+                                if let Part::Filter(fc) = p {
+                                    filter_msgs(fc, true, out);
+                                }
+                            }
+                            filter_msgs(body, inside, out);
+                        }
+                        Clause::When { cond, body, .. } => {
+                            filter_msgs(cond, inside, out);
+                            filter_msgs(body, inside, out);
+                        }
+                        Clause::TypeBlock { cond, body, .. } => {
+                            if let Some(c) = cond {
+                                filter_msgs(c, inside, out);
+                            }
+                            filter_msgs(body, inside, out);
+                        }
+                        _ => {}
+                    }
+                }
+            }
+        }
+        let mut fm = std::collections::BTreeSet::new();
+        for f in files {
+            for rl in &f.rules {
+                filter_msgs(&rl.body, false, &mut fm);
+                if let Some(w) = &rl.when {
+                    filter_msgs(w, false, &mut fm);
+                }
+            }
+            filter_msgs(&f.default, false, &mut fm);
+        }
+        for (n, msgs) in &r.not_compliant {
+            for m in msgs {
+                if fm.contains(m) {
+                    bad("filter-test-listed-as-check", format!("rule {} lists a check with message {:?}, which is written on a clause inside a filter", n, m));
+                }
+            }
+        }
+    }
     // (4) exit code agrees
     let want_code = if want == St::Fail { 19 } else { 0 };
     if o.code != Ok(want_code) {
